@@ -54,14 +54,14 @@ def C03(run):
     run.deductive(keys=[U + 'pauli_combine', U + 'pauli_transform', U + 'ps0', U + 'ipow', PA + 'PauliList.transform_by#nomask', PA + 'PauliList.transform_by#state'],
                   lemmas=['ipowsum_ext', 'ordg_bits', 'acq_zero', 'acq_bilinear', 'acq_antisym', 'acqsum_ext', 'ordg_acq', 'selacq_map', 'selacq_image',
                           'partnersum_acq', 'transform_preserves_acq', 'ordp_parity', 'xzpartial_full', 'ipow_parity'])
-    run.bounded_check('c03_transform', _b().c03_transform, Nmax=q(run, 2, 3), count=q(run, 25, 120))
+    run.bounded_check('c03_transform', _b().c03_transform, Nmax=q(run, 2, 3), count=q(run, 25, 400))
     return 'other', ('deductive (all N): pauli_combine = ordered product (OrdG/OrdP), pauli_transform = homomorphic extension with the x.z '
                      'correction; bounded: homomorphism / unitarity, masks = embeddings, rotation map = rotation, against dense matrices')
 
 
 def C04(run):
     run.deductive(keys=[U + 'pauli_transform', U + 'pauli_combine', ST + 'CliffordMap.compose', ST + 'CliffordMap.copy', ST + 'identity_map'], lemmas=[])
-    run.bounded_check('c04_group', _b().c04_group, Nmax=q(run, 2, 3), count=q(run, 20, 80))
+    run.bounded_check('c04_group', _b().c04_group, Nmax=q(run, 2, 3), count=q(run, 20, 250))
     return 'other', ('group laws bounded (N=1 exhaustive over all 24 maps, sampled beyond); compose is pauli_transform whose '
                      'functional contract is deductive; z2inv exhaustive up to 3x3')
 
@@ -71,8 +71,8 @@ def C05(run):
                         ST + 'CliffordMap.to_state#none', ST + 'StabilizerState.copy', ST + 'StabilizerState.measure#list',
                         ST + 'StabilizerState.postselect', 'pyclifford/circuit.py::MeasureLayer.forward', U + 'stabilizer_postselection', PA + 'PauliList.rotate_by#state', PA + 'PauliList.transform_by#state', GATES[3], GATES[4], GATES[5],
                         U + 'stabilizer_projection_trace'], lemmas=MEASURE_LEMMAS)
-    run.bounded_check('c05_histories', _b().c05_histories, Nmax=3, walks=q(run, 45, 400), steps=q(run, 10, 25))
-    run.bounded_check('c06_measure', _b().c06_measure, Nmax=2, count=q(run, 25, 200), reps=q(run, 2, 4))
+    run.bounded_check('c05_histories', _b().c05_histories, Nmax=3, walks=q(run, 45, 2500), steps=q(run, 10, 30))
+    run.bounded_check('c06_measure', _b().c06_measure, Nmax=2, count=q(run, 25, 400), reps=q(run, 2, 5))
     return 'other', ('bounded: random histories from every constructor with the tableau invariant and dense validity checked after every '
                      'public call; per-operation check for all N=1 tableaux; deductive part so far: row permutation of map_to_state and the '
                      'row-level contract of clifford_rotate')
@@ -80,7 +80,7 @@ def C05(run):
 
 def C06(run):
     run.deductive(keys=[U + 'stabilizer_measure', U + 'stabilizer_expect', ST + 'StabilizerState.measure#list'], lemmas=MEASURE_LEMMAS)
-    run.bounded_check('c06_measure', _b().c06_measure, Nmax=q(run, 2, 3), count=q(run, 40, 150), reps=q(run, 3, 5))
+    run.bounded_check('c06_measure', _b().c06_measure, Nmax=q(run, 2, 3), count=q(run, 40, 500), reps=q(run, 3, 6))
     return 'other', ('bounded: Born rule, joint log2-probability, projection postulate and repeatability against dense matrices: all '
                      'tableaux/ranks/signed observables for N=1, random tableaux x all ranks x commuting lists beyond')
 
@@ -88,66 +88,66 @@ def C06(run):
 def C07(run):
     run.deductive(keys=[U + 'stabilizer_expect', U + 'acq', U + 'ipow', ST + 'StabilizerState.expect#list', ST + 'StabilizerState.expect#state',
                         U + 'stabilizer_projection_trace'], lemmas=MEASURE_LEMMAS)
-    run.bounded_check('c07_expect', _b().c07_expect, Nmax=q(run, 2, 3), count=q(run, 40, 120))
+    run.bounded_check('c07_expect', _b().c07_expect, Nmax=q(run, 2, 3), count=q(run, 40, 400))
     return 'other', ('deductive (all N): stabilizer_expect returns 0 iff a row of index < N+r anticommutes, otherwise the sign of the ordered '
                      'product of the destabilizer-selected active stabilizers, no side effects; bounded: identification with Tr(rho P), '
                      'polynomials with phases, overlaps, bit-string probabilities')
 
 
 def C08(run):
-    run.bounded_check('c08_entropy', _b().c08_entropy, Nmax=q(run, 3, 4), count=q(run, 25, 60))
+    run.bounded_check('c08_entropy', _b().c08_entropy, Nmax=q(run, 3, 4), count=q(run, 25, 200))
     return 'other', 'bounded: entropy against the dense von Neumann entropy of the reduced density matrix for all regions, ranks, both argument forms'
 
 
 def C09(run):
     run.deductive(keys=[GATES[0], GATES[2], GATES[3], GATES[5], U + 'clifford_rotate', U + 'pauli_transform', PA + 'PauliList.rotate_by#state',
                         PA + 'PauliList.transform_by#state'], lemmas=MEASURE_LEMMAS)
-    run.bounded_check('c09_circuits', _b().c09_circuits, Nmax=3, programs=q(run, 40, 300), maxlen=q(run, 5, 8))
+    run.bounded_check('c09_circuits', _b().c09_circuits, Nmax=3, programs=q(run, 40, 1500), maxlen=q(run, 5, 9))
     return 'other', 'bounded: random gate programs in all 3x2x3 configurations against gate-by-gate application; locality of every gate'
 
 
 def C10(run):
     run.deductive(keys=[GATES[0], GATES[1], GATES[4], U + 'clifford_rotate', PA + 'Pauli.__neg__'], lemmas=['rotate_twice'])
-    run.bounded_check('c10_inverse', _b().c10_inverse, Nmax=3, programs=q(run, 40, 300), maxlen=q(run, 5, 8))
+    run.bounded_check('c10_inverse', _b().c10_inverse, Nmax=3, programs=q(run, 40, 1500), maxlen=q(run, 5, 9))
     return 'other', 'bounded: backward/forward round trips of gates, layers and circuits (compiled or not) on Pauli lists and states with rank'
 
 
 def C11(run):
-    run.bounded_check('c11_named', _b().c11_named, Nmax=q(run, 3, 4))
+    run.bounded_check('c11_named', _b().c11_named, Nmax=q(run, 3, 5))
     return 'other', ('the gate tables are finite: all named gates, both CNOT orientations and C(0..23) are checked completely (exhaustive) '
                      'against the textbook images, closure under compose/inverse, rejection of bad indices; placements N <= 3/4')
 
 
 def C12(run):
     run.deductive(keys=[U + 'map_to_state', U + 'state_to_map', ST + 'CliffordMap.to_state#r', ST + 'CliffordMap.to_state#none', ST + 'StabilizerState.to_map', ST + 'identity_map', U + 'stabilizer_project'], lemmas=['acq_bilinear', 'acq_antisym'])
-    run.bounded_check('c12_states', _b().c12_states, Nmax=q(run, 3, 3), count=q(run, 20, 80))
+    run.bounded_check('c12_states', _b().c12_states, Nmax=q(run, 3, 3), count=q(run, 20, 300))
     return 'other', ('deductive (all N): map_to_state / state_to_map are the exact row and phase permutations (Z-images -> stabilizers, '
                      'X-images -> destabilizers); bounded: constructors, to_state/to_map round trip, to_qutip, stabilizer_state against dense matrices')
 
 
 def C13(run):
     from . import torchconf
-    run.bounded_check('c13_torch', torchconf.c13_torch, Nmax=q(run, 2, 2), count=q(run, 8, 30))
+    run.bounded_check('c13_torch', torchconf.c13_torch, Nmax=q(run, 2, 2), count=q(run, 8, 120))
     return 'other', 'bounded conformance only (no VC generation for TorchScript / float tensors): every shared function on the same inputs, N <= 2'
 
 
 def C14(run):
     run.deductive(keys=[U + 'stabilizer_measure', U + 'stabilizer_postselection', ST + 'StabilizerState.postselect', ST + 'StabilizerState.measure#list',
                         'pyclifford/circuit.py::MeasureLayer.forward'], lemmas=MEASURE_LEMMAS)
-    run.bounded_check('c14_trajectory', _b().c14_trajectory, Nmax=3, programs=q(run, 40, 250))
+    run.bounded_check('c14_trajectory', _b().c14_trajectory, Nmax=3, programs=q(run, 40, 1200))
     return 'other', ('bounded: measurement layers and circuits with mid-circuit measurements against the dense trajectory in program order, '
                      'backward = adjoint of the recorded trajectory, impossible records rejected, post-selection of all signed strings')
 
 
 def C15(run):
     run.deductive(keys=[U + 'batch_dot', U + 'ipow', PA + 'PauliPolynomial.__matmul__#poly', PA + 'Pauli.__matmul__#Monomial'], lemmas=[])
-    run.bounded_check('c15_algebra', _b().c15_algebra, Nmax=q(run, 2, 3), trees=q(run, 200, 1500))
+    run.bounded_check('c15_algebra', _b().c15_algebra, Nmax=q(run, 2, 3), trees=q(run, 200, 8000))
     return 'other', 'bounded: random expression trees over all operand kinds against dense matrices, reduce, trace, to_qutip exports, linearity'
 
 
 def C16(run):
     run.deductive(keys=[U + 'random_pair', U + 'front', U + 'acq'], lemmas=['acq_diff2', 'onsite_flat', 'acq_antisym'])
-    run.bounded_check('c16_random', _b().c16_random, Nmax=3, samples=q(run, 25, 150), n1=q(run, 4800, 24000), n2=q(run, 36000, 144000))
+    run.bounded_check('c16_random', _b().c16_random, Nmax=3, samples=q(run, 25, 400), n1=q(run, 4800, 96000), n2=q(run, 36000, 576000))
     return 'other', ('bounded: validity of every sampler; uniformity by chi-square with an 8-sigma threshold on N=1 (24 elements) and N=2 '
                      '(720 symplectic classes); resampling of map-less gates; fairness of sign bits and coins statistically (not a contract)')
 
@@ -156,7 +156,7 @@ def C17(run):
     run.deductive(keys=KERNELS + CLASS_LAYER, lemmas=['acq_is_anticount'] + MEASURE_LEMMAS)
     if run.tier == 'thorough':
         run.generator_selftest()
-    run.bounded_check('c17_copies', _b().c17_copies, Nmax=3, rounds=q(run, 20, 120))
+    run.bounded_check('c17_copies', _b().c17_copies, Nmax=3, rounds=q(run, 20, 500))
     return 'other', ('deductive (all N): the frame condition (modifies clause) of every kernel under contract: arguments not listed are '
                      'unchanged, results are fresh or exactly the in-place arguments; bounded: copy of every object kind, query methods with '
                      'before/after snapshots')
@@ -164,14 +164,14 @@ def C17(run):
 
 def C18(run):
     run.deductive(keys=[U + 'front', U + 'pauli_is_onsite', U + 'pauli_diagonalize1'], lemmas=['acq_diff2', 'onsite_flat', 'acq_antisym'])
-    run.bounded_check('c18_diagonalize', _b().c18_diagonalize, Nmax=q(run, 3, 4), hams=q(run, 30, 200))
+    run.bounded_check('c18_diagonalize', _b().c18_diagonalize, Nmax=q(run, 3, 4), hams=q(run, 30, 800))
     return 'other', ('deductive: front / pauli_is_onsite; bounded: diagonalize for all strings, signs, targets, causal on/off (N <= 3/4), '
                      'states, SBRG on commuting (exact) and arbitrary (diagonal form) Hamiltonians')
 
 
 def C19(run):
     run.deductive(keys=[U + 'pauli_combine'], lemmas=['ipowsum_ext'])
-    run.bounded_check('c19_sampling', _b().c19_sampling, Nmax=3, count=q(run, 15, 80))
+    run.bounded_check('c19_sampling', _b().c19_sampling, Nmax=3, count=q(run, 15, 300))
     return 'other', ('deductive: sample() rows are ordered products (pauli_combine contract); bounded: membership with sign, density-matrix '
                      'expansion, classical-shadow snapshots')
 
@@ -179,7 +179,7 @@ def C19(run):
 def C20(run):
     run.deductive(keys=[U + 'pauli_tokenize', PA + 'Pauli.__neg__', PA + 'PauliList.__neg__'] +
                   [PA + '%s.__rmul__#%s' % (c, t) for c in ('Pauli', 'PauliList') for t in ('1', 'i', 'm1', 'mi')], lemmas=[])
-    run.bounded_check('c20_formats', _b().c20_formats, Nmax=q(run, 3, 4))
+    run.bounded_check('c20_formats', _b().c20_formats, Nmax=q(run, 3, 5))
     return 'other', ('deductive (all N, L): pauli_tokenize produces exactly the documented token codes; bounded and exhaustive per N: all '
                      'strings x phases x accepted formats, print/parse and tokenize/parse round trips, indexing, negation, unit multiples')
 
